@@ -11,7 +11,7 @@
                          points at something that itself prints as null
      hook_law sd         classification of a struct's (MarshalJSON, UnmarshalJSON) pair *)
 From Coq Require Import List String Bool ZArith NArith Ascii.
-From MV Require Import Lib.GoJson Lib.GoJsonFacts Gen.CfgTypes Model.ConfigRT Proofs.ConfigRT Proofs.ConfigRTFull.
+From MV Require Import Lib.GoJson Lib.GoJsonFacts Gen.CfgTypes Model.ConfigRT Model.EffConfig Proofs.ConfigRT Proofs.ConfigRTFull Proofs.EffConfig.
 Import ListNotations.
 Open Scope string_scope.
 
@@ -184,3 +184,37 @@ Proof.
   intros tgt hidden pathf inlf z sub p H Hp. unfold inline_in. rewrite H.
   destruct p; [contradiction|reflexivity].
 Qed.
+
+(* ============================================================================================================== *)
+(* THE EFFECTIVE CONFIGURATION (Model/EffConfig.v): the setters of effectiveconfig.go as a state machine eff_step     *)
+(* over configuration values (maps as name-sorted association lists) and transferConfig as `transfer`; tied to the    *)
+(* real code on every run by generated histories of the real setters (state and persisted form must agree).          *)
+(* ============================================================================================================== *)
+(* for EVERY history of setter calls whose arguments are well-formed (routers in inline mode), every listener, cluster
+   and router the state holds is well-formed, the routers are held with the empty path and the remembered paths are
+   empty: *)
+Theorem c19_eff_invariant : forall ops st, inv_lists st -> Forall op_ok ops -> inv_lists (eff_run ops st).
+Proof. exact eff_run_inv. Qed.
+Print Assumptions c19_eff_invariant.
+(* hence the name-keyed lists transferConfig assembles are well-formed lists of listeners / clusters *)
+Theorem c19_eff_transfer_lists : forall ops, Forall op_ok ops ->
+  let st := eff_run ops eff_init in
+  WF cfg_structs (TSlice (TNamed "v2.Listener")) (VRef 0 (map (fun kv => ("", snd kv)) (e_listeners st))) /\
+  WF cfg_structs (TSlice (TNamed "v2.Cluster")) (VRef 0 (map (fun kv => ("", snd kv)) (e_clusters st))) /\
+  Forall (fun kv => snd kv = VStr "") (e_rpaths st).
+Proof. exact transfer_lists_wf. Qed.
+(* dump / load of the persisted form round-trips whenever the reassembled v2.MOSNConfig is well-formed (instance of
+   c19_roundtrip_full; the name-keyed lists come out sorted by name in the model - in Go in map order, which is what
+   "up to the order of the name-keyed lists" refers to) *)
+Theorem c19_eff_roundtrip : forall ops fuel, WF cfg_structs t_mosn (transfer (eff_run ops eff_init)) ->
+  fuel_free (encode cfg_structs fuel t_mosn (transfer (eff_run ops eff_init))) = true ->
+  forall fuel' v', decode cfg_structs fuel' t_mosn (encode cfg_structs fuel t_mosn (transfer (eff_run ops eff_init))) = Some v' ->
+    encode cfg_structs fuel t_mosn v' = encode cfg_structs fuel t_mosn (transfer (eff_run ops eff_init)).
+Proof. exact eff_roundtrip. Qed.
+Print Assumptions c19_eff_roundtrip.
+(* STILL OPEN (c19_eff_wf_partial): that `transfer (eff_run ops eff_init)` as a WHOLE is well-formed for every history of
+   well-formed arguments is not proved (the lists are, above; the reassembly of the server / cluster-manager structs
+   around them is not); it is CHECKED (wfb, sound by c19_wfb_sound) together with the model's dump/load/dump on the
+   initialisation histories of generated loaded configurations on every run. *)
+Definition c19_eff_wf_partial_statement : Prop :=
+  forall ops, Forall op_ok ops -> WF cfg_structs t_mosn (transfer (eff_run ops eff_init)).
